@@ -6,8 +6,9 @@ use crate::input::StringView;
 use crate::pc_specific::*;
 use crate::{BuiltInSub, ParserError, *};
 pub fn parse() -> impl Parser<StringView, Output = Statement, Error = ParserError> {
-    keyword_ws_p(Keyword::Width)
-        .and_keep_right(csv_allow_missing())
+    // the whitespace after the keyword is not needed if there are no arguments
+    keyword(Keyword::Width)
+        .and_keep_right(lead_opt_ws(csv_allow_missing()))
         .map(|opt_args| Statement::built_in_sub_call(BuiltInSub::Width, map_args(opt_args)))
 }
 
